@@ -84,6 +84,19 @@ def full_name(h, n):
     return z3.If(is_VNone(asset), without, with_asset)
 
 
+_fn_cache = {}
+
+
+def full_name_fn(h):
+    """(FN, axiom): an uninterpreted function equal to full_name over heap h — usable inside quantifier patterns"""
+    key = (h.arr['f_asset'].get_id(), h.arr['f_name'].get_id(), h.arr['f_id'].get_id())
+    if key not in _fn_cache:
+        fn = z3.Function('FN!%d' % len(_fn_cache), Addr, Str)
+        x = z3.Const('x!fn', Addr)
+        _fn_cache[key] = (fn, z3.ForAll([x], fn(x) == full_name(h, x), patterns=[fn(x)]))
+    return _fn_cache[key]
+
+
 def A(name): return z3.Const(name, Addr)
 
 
